@@ -113,6 +113,13 @@ fn case(run: &mut Run, rng: &mut Rng, dns: &DnsResolver) {
         ttl: h.ttl().to_string(), ips: h.addrs().map(ToString::to_string).collect(), sent: h.total_sent().to_string(), recv: h.total_recv().to_string(),
     }).collect();
     let ctx = format!("first-ttl {} rounds [{}]", net.first, lines.join(" | "));
+    // the generators wait (spinning on snapshots) until the state has reached round `report_cycles - 1`; no tracer
+    // is running here, so they are asked for exactly the rounds the state has (a round without a single probe does
+    // not advance it)
+    let Some(n_rounds) = st.round(trippy_core::State::default_flow_id()).map(|r| r + 1) else {
+        run.count("report:no-round-in-state");
+        return;
+    };
     // C10 from what was probed: the first row is the lowest TTL ever probed, the rows ascend by one
     let lowest = probed.iter().min().copied();
     type Parser = fn(&str) -> Vec<Row>;
@@ -146,7 +153,11 @@ fn case(run: &mut Run, rng: &mut Rng, dns: &DnsResolver) {
         }
         if let (Some(lo), Some(first)) = (lowest, got.first()) {
             let asc = got.iter().enumerate().all(|(i, r)| r.ttl == (usize::from(lo) + i).to_string());
-            if !want.is_empty() && (first.ttl != lo.to_string() || !asc) {
+            // only for what a tracer can publish: every position of the table was probed at some time (the generator
+            // also makes rounds with a TTL left out, which no strategy produces: that position is a default hop)
+            let all_probed = (0..got.len()).all(|i| probed.contains(&((usize::from(lo) + i).min(255) as u8)));
+            if !all_probed { run.count("report:table-with-unprobed-position"); }
+            if all_probed && !want.is_empty() && (first.ttl != lo.to_string() || !asc) {
                 run.fail("c10-report-rows", format!("{kind} report, {ctx}: rows {:?} are not the run of TTLs from the lowest probed ({lo})", got.iter().map(|r| r.ttl.clone()).collect::<Vec<_>>()));
             }
         }
